@@ -16,6 +16,8 @@ def run(tier):
     recs += M.gen_pairs(ctx, 2, 2, 4, "Gen_Schema_widearr", smode="widearr")      # top-level arrays of 15..70 elements
     recs += M.gen_pairs(ctx, 2, 2, 4, "Gen_Schema_wide3", smode="wide3", laye=0 if q else 1)
     recs += M.gen_pairs(ctx, 2, 2, 4, "Gen_Schema_nest2", smode="nest2")
+    # names of every length with an escape at every block offset, matched against another spelling of the same name
+    recs += M.gen_pairs(ctx, 2, 2, 4, "Gen_Schema_esckeys", smode="esckeys")
     # beyond the exhaustive bound: random growth + random edits (TLC simulation)
     recs += M.gen_rand(ctx, 6 if q else 60, 8, 3) + M.gen_rand(ctx, 3 if q else 30, 12, 5, layv=0 if q else 2)
     rows = [[str(i), hexs(r["e"]), hexs(r["v"]), T.canon(r["lazy"])] for i, r in enumerate(recs)]
